@@ -1,20 +1,25 @@
 (* Property C18 — eigenvector centrality returns a unit-norm approximate
    dominant eigenvector.  Only pinned statements; proofs live in
    Proofs/EigenOk.v (any number structure with the ordered-field-with-sqrt laws
-   [Laws]; closed under the global context) and Proofs/EigenReal.v (the
-   instance of Coq's reals, which brings in the standard library's three
-   axioms of Reals).  Repeated in coq/pins/C18.v and re-checked on every run.
+   [Laws]; closed under the global context), Proofs/EigenMatrix.v (the
+   accumulation loop = (I + A^T) x over the edge store; generic [Num], only the
+   four [SumLaws]: + commutative, associative, a+0 = a, a*0 = 0),
+   Proofs/EigenWF.v (hypotheses discharged from the coherence invariant [WF],
+   which holds in every reachable state), Proofs/EigenReal.v /
+   Proofs/EigenBound.v / Proofs/EigenExample.v (the instance of Coq's reals,
+   which brings in the standard library's three axioms of Reals).  Repeated in
+   coq/pins/C18.v and re-checked on every run.
 
-   Not proved (stretch): C18_next_step_bound, i.e. ||T x - x||_1 <= L*n*tol for
-   the returned x with an explicit Lipschitz constant L of
-   T y = normalise (y + A^T y); the proved form of "approximate fixed point" is
-   C18_approx_fixed_point (x = T xlast with ||x - xlast||_1 < n*tol).  The
-   next-step bound itself is checked on the implementation's output by the
-   property oracle of tools/p_c18.py.  That [spread] equals the matrix form
-   xlast + A^T xlast is covered by the correspondence/oracle, not by a theorem. *)
+   Section C18     : the loop and the result, for any lawful number structure.
+   Section C18_WF  : (a) [spread] equals the matrix form x + A^T x with A read off
+                     [get_all_edges]; the returned x = normalise ((I + A^T) xlast) with
+                     ||x - xlast||_1 < n*tol; "keys = node names" and "stored weights >= 0"
+                     follow from WF + a premise over [get_all_edges]; corollaries for every
+                     reachable graph / every graph built by new_from_nodes_and_edges.
+   At R            : (b) the explicit next-step bound (see the statements below). *)
 From Coq Require Import String List Bool ZArith Arith QArith Reals.
-From GV Require Import Base.Outcome Base.AMap Model.GState Model.Creation Model.Query Model.Eigen.
-From GV Require Import Proofs.EigenOk Proofs.EigenReal.
+From GV Require Import Base.Outcome Base.AMap Model.GState Model.Creation Model.Query Model.Eigen Spec.History.
+From GV Require Import Proofs.WFDefs Proofs.AdjOk Proofs.EigenOk Proofs.EigenReal Proofs.EigenMatrix Proofs.EigenWF Proofs.EigenBound Proofs.EigenExample.
 Import ListNotations.
 
 Section C18.
@@ -88,6 +93,151 @@ Section C18.
   Proof. exact (ev_unit_norm teqb F L). Qed.
 End C18.
 
+(* ------------------------------------------------------------------------------------------
+   Deepening: the model linked to the proved graph invariant WF and to the edge store. *)
+Section C18_WF.
+  Context {T A : Type}.
+  Variable teqb : T -> T -> bool.
+  Variable tltb : T -> T -> bool.
+  Hypothesis teqb_spec : forall x y, teqb x y = true <-> x = y.
+  Hypothesis tltb_asym : forall x y, tltb x y = true -> tltb y x = false.
+  Hypothesis tltb_total : forall x y, tltb x y = false -> tltb y x = false -> x = y.
+  Variable F : Num.
+  Notation gstate := (gstate T A).
+  Notation WF := (@WF T A teqb tltb).
+
+  (* (a) the accumulation loop is x + A^T x over the EDGE STORE.  On every coherent single-edge
+     graph, for every vector xlast indexed by the node names (in ANY order), the one-pass update
+     does not panic, keeps the keys and sets, for every node v,
+        x1[v] = xlast[v] + SUM over e in get_all_edges g with  ev e = v, or (undirected) eu e = v
+                            [a self-loop (v,v) is one edge, so it is counted once]
+                           of xlast[the other end of e] * w(e),
+     w(e) = 1 when weighted = false or the weight is NaN.  Laws used: SumLaws (to reorder). *)
+  Theorem C18_update_is_matrix_form : forall (SL : SumLaws F) (g : gstate) weighted (xlast : @xmap T F),
+    WF g -> multi (sp g) = false ->
+    NoDup (keys xlast) -> (forall k, In k (keys xlast) <-> In k (names g)) ->
+    exists x1, spread teqb F g weighted xlast = Ok x1 /\ keys x1 = keys xlast /\
+      forall v xv, lookup teqb v xlast = Some xv ->
+        lookup teqb v x1 =
+        Some (nadd F xv (nsum F (map (fun e => nmul F (xat teqb F xlast (other teqb v e)) (edge_w F weighted e))
+                                     (filter (fun e => teqb (ev e) v || (negb (directed (sp g)) && teqb (eu e) v))
+                                             (get_all_edges g))))).
+  Proof.
+    intros SL g weighted xlast W Hm Hnd Hk.
+    exact (spread_edge_form teqb tltb teqb_spec tltb_asym tltb_total F SL g weighted W Hm xlast Hnd Hk).
+  Qed.
+
+  (* the same in node-indexed matrix form: x1[v] = xlast[v] + SUM_{u in names g} xlast[u] * A[u][v],
+     A[u][v] = [aent g weighted u v] = w of the stored edge between u and v, 0 when there is none *)
+  Theorem C18_update_is_matrix_form_entries : forall (SL : SumLaws F) (g : gstate) weighted (xlast : @xmap T F),
+    WF g -> multi (sp g) = false ->
+    NoDup (keys xlast) -> (forall k, In k (keys xlast) <-> In k (names g)) ->
+    exists x1, spread teqb F g weighted xlast = Ok x1 /\ keys x1 = keys xlast /\
+      forall v xv, lookup teqb v xlast = Some xv ->
+        lookup teqb v x1 =
+        Some (nadd F xv (nsum F (map (fun u => nmul F (xat teqb F xlast u) (aent teqb tltb F g weighted u v)) (names g)))).
+  Proof.
+    intros SL g weighted xlast W Hm Hnd Hk.
+    exact (spread_matrix_form teqb tltb teqb_spec tltb_asym tltb_total F SL g weighted W Hm xlast Hnd Hk).
+  Qed.
+
+  (* A is the matrix of the edge store: at most one stored edge per pair, and symmetric when undirected *)
+  Theorem C18_matrix_entry_from_store : forall (g : gstate) weighted u v,
+    WF g -> multi (sp g) = false ->
+    (stored_between teqb tltb g u v = [] /\ aent teqb tltb F g weighted u v = n0 F) \/
+    (exists e, stored_between teqb tltb g u v = [e] /\ aent teqb tltb F g weighted u v = edge_w F weighted e).
+  Proof. exact (aent_from_store teqb tltb teqb_spec F). Qed.
+
+  Theorem C18_matrix_symmetric_when_undirected : forall (g : gstate) weighted u v,
+    directed (sp g) = false -> aent teqb tltb F g weighted u v = aent teqb tltb F g weighted v u.
+  Proof. exact (aent_sym teqb tltb tltb_asym tltb_total F). Qed.
+
+  (* with no law of arithmetic at all: the terms are added in the order of xlast's keys *)
+  Theorem C18_update_in_key_order : forall (g : gstate) weighted (xlast : @xmap T F),
+    WF g -> multi (sp g) = false -> (forall k, In k (keys xlast) <-> In k (names g)) ->
+    exists x1, spread teqb F g weighted xlast = Ok x1 /\ keys x1 = keys xlast /\
+      forall v, lookup teqb v x1 =
+                option_map (fun a => fold_left (acc_step teqb tltb F g weighted xlast v) (keys xlast) a)
+                           (lookup teqb v xlast).
+  Proof.
+    intros g weighted xlast W Hm Hk.
+    exact (spread_node_form teqb tltb teqb_spec tltb_asym tltb_total F g weighted W Hm xlast Hk).
+  Qed.
+
+  (* as one equation between vectors: spread = (I + A^T), in the edge-store and in the node-indexed form *)
+  Theorem C18_update_is_matvec : forall (SL : SumLaws F) (g : gstate) weighted (xlast : @xmap T F),
+    WF g -> multi (sp g) = false ->
+    NoDup (keys xlast) -> (forall k, In k (keys xlast) <-> In k (names g)) ->
+    spread teqb F g weighted xlast = Ok (matvec_e teqb F g weighted xlast) /\
+    matvec_e teqb F g weighted xlast = matvec teqb tltb F g weighted xlast.
+  Proof.
+    intros SL g weighted xlast W Hm Hnd Hk. split.
+    - exact (spread_is_matvec_e teqb tltb teqb_spec tltb_asym tltb_total F SL g weighted W Hm xlast Hnd Hk).
+    - symmetry. exact (matvec_edge teqb tltb teqb_spec tltb_asym tltb_total F SL g weighted W Hm xlast Hnd Hk).
+  Qed.
+
+  (* hence: the returned vector is a fixed point, up to the tolerance, of x |-> normalise ((I + A^T) x)
+     with A defined from the edge store: x = normalise ((I + A^T) xlast) for an xlast over the node
+     names with ||x - xlast||_1 < n * tol *)
+  Theorem C18_approx_eigenvector : forall (SL : SumLaws F) (g : gstate) weighted max_iter tol x,
+    WF g ->
+    eigenvector_centrality teqb F g weighted max_iter tol = Ok x ->
+    exists xlast y,
+      keys xlast = names g /\
+      x = normalise F (matvec_e teqb F g weighted xlast) /\
+      matvec_e teqb F g weighted xlast = matvec teqb tltb F g weighted xlast /\
+      l1_change teqb F x xlast = Ok y /\
+      nltb F y (threshold F g (match tol with Some q => nofQ F q | None => nofQ F (1 # 1000000) end)) = true.
+  Proof.
+    intros SL g weighted max_iter tol x W H.
+    exact (ev_approx_eigenvector teqb tltb teqb_spec tltb_asym tltb_total F g weighted max_iter tol W SL x H).
+  Qed.
+
+  (* the structural hypotheses of the result theorems follow from WF and the public edge list *)
+  Theorem C18_weights_nonneg_from_edge_list : forall g : gstate,
+    WF g -> (forall e, In e (get_all_edges g) -> wnn e = true) -> weights_nonneg g = true.
+  Proof. exact (weights_nonneg_of_store teqb tltb teqb_spec). Qed.
+
+  Theorem C18_initial_keys_WF : forall g : gstate, WF g -> keys (init_x teqb F g) = names g.
+  Proof. exact (init_keys_WF teqb tltb teqb_spec F). Qed.
+
+  (* one entry per node (the node names, in node order), all >= 0, unit norm *)
+  Theorem C18_result_WF : forall (L : Laws F) (g : gstate) weighted max_iter tol x,
+    WF g -> (forall e, In e (get_all_edges g) -> wnn e = true) ->
+    eigenvector_centrality teqb F g weighted max_iter tol = Ok x ->
+    keys x = names g /\ Forall (fun kv => nn F L (snd kv)) x /\ sumsq F (values x) = n1 F.
+  Proof.
+    intros L g weighted max_iter tol x W Hw H.
+    exact (ev_result_WF teqb tltb teqb_spec F g weighted max_iter tol W L Hw x H).
+  Qed.
+
+  (* ... in every state reachable by any history of mutations, and for every constructed graph *)
+  Theorem C18_result_reachable : forall (L : Laws F) s (g : gstate) weighted max_iter tol x,
+    reachable teqb tltb s g ->
+    (forall e, In e (get_all_edges g) -> wnn e = true) ->
+    eigenvector_centrality teqb F g weighted max_iter tol = Ok x ->
+    keys x = names g /\ Forall (fun kv => nn F L (snd kv)) x /\ sumsq F (values x) = n1 F.
+  Proof. exact (ev_result_reachable teqb tltb teqb_spec tltb_asym tltb_total F). Qed.
+
+  Theorem C18_result_new_from : forall (L : Laws F) ns es s (g : gstate) weighted max_iter tol x,
+    new_from_nodes_and_edges teqb tltb ns es s = Ok g ->
+    (forall e, In e (get_all_edges g) -> wnn e = true) ->
+    eigenvector_centrality teqb F g weighted max_iter tol = Ok x ->
+    keys x = names g /\ Forall (fun kv => nn F L (snd kv)) x /\ sumsq F (values x) = n1 F.
+  Proof. exact (ev_result_new_from teqb tltb teqb_spec tltb_asym tltb_total F). Qed.
+
+  Theorem C18_approx_eigenvector_reachable : forall (SL : SumLaws F) s (g : gstate) weighted max_iter tol x,
+    reachable teqb tltb s g ->
+    eigenvector_centrality teqb F g weighted max_iter tol = Ok x ->
+    exists xlast y,
+      keys xlast = names g /\
+      x = normalise F (matvec_e teqb F g weighted xlast) /\
+      matvec_e teqb F g weighted xlast = matvec teqb tltb F g weighted xlast /\
+      l1_change teqb F x xlast = Ok y /\
+      nltb F y (threshold F g (match tol with Some q => nofQ F q | None => nofQ F (1 # 1000000) end)) = true.
+  Proof. exact (ev_approx_eigenvector_reachable teqb tltb teqb_spec tltb_asym tltb_total F). Qed.
+End C18_WF.
+
 (* the laws are satisfiable (Coq's reals), so none of the above is vacuous; at that instance: *)
 Theorem C18_unit_norm_real : forall (g : gstate Z Z) weighted max_iter tol x,
   eigenvector_centrality Z.eqb NumR g weighted max_iter tol = Ok x ->
@@ -98,3 +248,81 @@ Theorem C18_real_instance_nonvacuous :
   exists x, eigenvector_centrality Z.eqb NumR ex_g1 false (Some 1%nat) (Some (1 # 100)%Q) = Ok x /\
             weights_nonneg ex_g1 = true.
 Proof. exact ex_real_ok. Qed.
+
+(* ------------------------------------------------------------------------------------------
+   (b) the explicit next-step bound, at Coq's reals.  M = I + A^T with A = [aent] read off the
+   edge store, [Mop g weighted f v] = f v + SUM_{u in names g} f u * A[u][v],
+   [Wtot g weighted] = SUM_{u,v in names g} A[u][v], n = number of nodes, thr = n * tol. *)
+Section C18_bound.
+  Context {T A : Type}.
+  Variable teqb : T -> T -> bool.
+  Variable tltb : T -> T -> bool.
+  Hypothesis teqb_spec : forall x y, teqb x y = true <-> x = y.
+  Hypothesis tltb_asym : forall x y, tltb x y = true -> tltb y x = false.
+  Hypothesis tltb_total : forall x y, tltb x y = false -> tltb y x = false -> x = y.
+  Notation gstate := (gstate T A).
+  Notation WF := (@WF T A teqb tltb).
+
+  (* (lambda, x) is an approximate eigenpair of M in L1:  ||M x - lambda x||_1 < (1 + Wtot) * n * tol *)
+  Theorem C18_eigen_residual_bound : forall (g : gstate) weighted max_iter tol x,
+    WF g -> (forall e, In e (get_all_edges g) -> wnn e = true) ->
+    eigenvector_centrality teqb NumR g weighted max_iter tol = Ok x ->
+    exists lam : R, (0 < lam)%R /\
+      (Rsum (fun v => Rabs (Mop teqb tltb g weighted (xat teqb NumR x) v - lam * xat teqb NumR x v)) (names g)
+       < (1 + Wtot teqb tltb g weighted) *
+         threshold NumR g (match tol with Some q => nofQ NumR q | None => nofQ NumR (1 # 1000000) end))%R.
+  Proof.
+    intros g weighted max_iter tol x W Hw H.
+    exact (ev_residual_bound teqb tltb teqb_spec tltb_asym tltb_total g weighted max_iter tol W Hw x H).
+  Qed.
+
+  (* one further pass of the very loop, x |-> normalise (x + A^T x), does not panic and measures an
+     L1 change below L * n * tol with the explicit constant L = (n + 1) * (1 + Wtot) *)
+  Theorem C18_next_step_bound : forall (g : gstate) weighted max_iter tol x,
+    WF g -> (forall e, In e (get_all_edges g) -> wnn e = true) ->
+    eigenvector_centrality teqb NumR g weighted max_iter tol = Ok x ->
+    exists x2 y2, step teqb NumR g weighted x = Ok (x2, y2) /\
+                  x2 = normalise NumR (matvec teqb tltb NumR g weighted x) /\
+                  (y2 < (INR (length (names g)) + 1) * (1 + Wtot teqb tltb g weighted) *
+                        threshold NumR g (match tol with Some q => nofQ NumR q | None => nofQ NumR (1 # 1000000) end))%R.
+  Proof.
+    intros g weighted max_iter tol x W Hw H.
+    exact (ev_next_step_bound teqb tltb teqb_spec tltb_asym tltb_total g weighted max_iter tol W Hw x H).
+  Qed.
+
+  Theorem C18_next_step_bound_reachable : forall s (g : gstate) weighted max_iter tol x,
+    reachable teqb tltb s g -> (forall e, In e (get_all_edges g) -> wnn e = true) ->
+    eigenvector_centrality teqb NumR g weighted max_iter tol = Ok x ->
+    exists x2 y2, step teqb NumR g weighted x = Ok (x2, y2) /\
+                  x2 = normalise NumR (matvec teqb tltb NumR g weighted x) /\
+                  (y2 < (INR (length (names g)) + 1) * (1 + Wtot teqb tltb g weighted) *
+                        threshold NumR g (match tol with Some q => nofQ NumR q | None => nofQ NumR (1 # 1000000) end))%R.
+  Proof.
+    intros s g weighted max_iter tol x Hr Hw H.
+    exact (ev_next_step_bound teqb tltb teqb_spec tltb_asym tltb_total g weighted max_iter tol
+             (HistoryOk.WF_reachable teqb tltb teqb_spec tltb_asym tltb_total s g Hr) Hw x H).
+  Qed.
+End C18_bound.
+
+(* a concrete weighted run with every hypothesis of the deepened theorems satisfied: the undirected
+   graph {0,1} w=1, {1,2} w=4, self-loop {2,2} w=4 built by a history; A = [[0,1,0],[1,0,4],[0,4,4]],
+   (I + A^T)(1/3,1/3,1/3) = (2,6,9)/3 of norm 11/3, and the first pass returns (2,6,9)/11 *)
+Theorem C18_weighted_example_result :
+  eigenvector_centrality Z.eqb NumR ex_g3 true (Some 1%nat) (Some (1 # 3)%Q)
+  = Ok [(0%Z, 2/11); (1%Z, 6/11); (2%Z, 9/11)]%R.
+Proof. exact ex_g3_result. Qed.
+
+Theorem C18_weighted_example_nonvacuous :
+  exists x, eigenvector_centrality Z.eqb NumR ex_g3 true (Some 1%nat) (Some (1 # 3)%Q) = Ok x /\
+            reachable Z.eqb Z.ltb ex_sp3 ex_g3 /\ WF Z.eqb Z.ltb ex_g3 /\ multi (sp ex_g3) = false /\
+            (forall e, In e (get_all_edges ex_g3) -> wnn e = true) /\
+            length (nodes_vec ex_g3) = 3%nat /\ length (get_all_edges ex_g3) = 3%nat.
+Proof. exact ex_g3_nonvacuous. Qed.
+
+Theorem C18_weighted_example_Wtot : Wtot Z.eqb Z.ltb ex_g3 true = 14%R.
+Proof. exact ex_g3_Wtot. Qed.
+
+Theorem C18_weighted_example_matrix :
+  map (fun u => map (fun v => aent Z.eqb Z.ltb NumR ex_g3 true u v) [0%Z; 1%Z; 2%Z]) [0%Z; 1%Z; 2%Z]
+  = [[0; 1; 0]; [1; 0; 4]; [0; 4; 4]]%R.
+Proof. exact ex_g3_matrix. Qed.
